@@ -34,7 +34,7 @@ HARNESSES = {
         ],
     },
     'c02_cut_walk': {
-        'complete': False, 'timeout': 900, 'bound': 'parent chains of up to 3 real SolutionNode values; presence of head nodes symbolic',
+        'complete': False, 'timeout': 900, 'bound': 'one concrete shape: cut node -> parent -> grandparent (no parent), both with head nodes, one head with a head of its own, one node pointing into the chain',
         'what': 'SolutionNode::set_no_backtracking() (unsafe raw-pointer walk) on real nodes: flags the node, every node up the parent_node links and the head node of each of these, no other node (head of a head, a node pointing into the chain), and writes no other field - the specification `walked` assumed by the Verus unit solver',
         'need_stubs': [],
         'oracle': 'c02_cut',
